@@ -46,6 +46,23 @@ def storeMonStep (w : StMon) (ws : List String) : StMon × String :=
     | ["open", kind, sid] =>
       if sharesFiles w kind sid then (alSet w sid { kind := kind }, sharedVerdict)
       else (alSet w sid { kind := kind }, verdict (monOpen got))
+    | "sqlinter" :: _ :: _ :: rest =>
+      (match rest.span (· != "/") with
+       | (o1, _ :: o2) =>
+         (match parseStoreOp o1, parseStoreOp o2 with
+          | some (sid, a), some (sid2, b) =>
+            if sid ≠ sid2 then (w, "bad-op") else
+            (match w.lookup sid with
+             | none => (w, "bad-op")
+             | some ms =>
+               -- the other goroutine's op first, then the reported one (see Drv/Store.lean)
+               let inHyp := ms.inHyp && ascendingOk ms.hi b
+               let mid : MonSess := { ms with spec := (ms.spec.step b).1, hi := hiAfter ms.hi b, inHyp := inHyp }
+               let inHyp2 := mid.inHyp && ascendingOk mid.hi a
+               let fin : MonSess := { mid with spec := (mid.spec.step a).1, hi := hiAfter mid.hi a, inHyp := inHyp2 }
+               (alSet w sid fin, if inHyp2 then verdict (monOp mid.spec a got) else "ok"))
+          | _, _ => (w, "bad-op"))
+       | _ => (w, "bad-op"))
     | _ => match parseStoreOp opw with
       | none => (w, "bad-op")
       | some (sid, o) =>
